@@ -78,4 +78,4 @@ class Context:
     def symbolic_instance(self, it, state, ci, prefix='field'):
         """Instance of ci whose slots hold arbitrary run-time values."""
         attrs = {s: Sym(prefix, s) for s in self.slots_of(ci)}
-        return it.alloc(state, I.InstObj(ci, attrs))
+        return it.alloc(state, I.InstObj(ci, attrs, open_=True))
